@@ -292,10 +292,10 @@ theorem splitIncl_writeOne (suf : Str) (c : Correction) (rest : Str) (h : Simple
   rw [e, splitIncl_line_cons2 _ _ _ (nl_notin_rep '=' _ suf (by decide) hs),
     splitIncl_line_cons _ _ h.name.noNl,
     splitIncl_line_cons2 _ _ _ (nl_notin_rep '=' _ suf (by decide) hs),
-    splitIncl_append,
+    splitIncl_append c.input,
     splitIncl_line_cons2 _ _ _ (nl_notin_rep '-' _ suf (by decide) hs)]
   have e2 : ∀ x : Str, splitIncl ('\n' :: x) = ['\n'] :: splitIncl x := by intro x; simp [splitIncl]
-  rw [e2, splitIncl_append]
+  rw [e2, splitIncl_append (trim c.output)]
   simp [hdrL, bodyL]
 
 /-- Lines of the tests after the first one: a blank separator line, then header and body. -/
@@ -390,13 +390,14 @@ theorem firstSuffix_none_of (ls : List Str)
 theorem firstSuffix_written (suf : Str) (hse : SufOK '=' suf) (c : Correction) (cs : List Correction)
     (h : ∀ x ∈ c :: cs, Simple x) :
     firstSuffix (hdrL suf c ++ (bodyL suf c ++ tailLines suf cs)) = fsOf suf := by
-  cases hsuf : suf with
-  | cons x xs =>
+  by_cases hsuf : suf = []
+  case neg =>
     have hd := parseDelimLine_rep '=' c.hlen suf (h c (by simp)).hlen (by decide) hse
-    rw [hsuf] at hd
-    simp [hdrL, firstSuffix, hd, fsOf]
-  | nil =>
-    have hse' : SufOK '=' [] := hsuf ▸ hse
+    have : suf.isEmpty = false := by cases suf <;> simp_all
+    simp [hdrL, firstSuffix, hd, fsOf, this]
+  case pos =>
+    subst hsuf
+    have hse' : SufOK '=' [] := hse
     simp only [fsOf, List.isEmpty_nil, ↓reduceIte]
     apply firstSuffix_none_of
     have key : ∀ (c : Correction), Simple c → ∀ l ∈ hdrL [] c ++ bodyL [] c,
@@ -406,13 +407,13 @@ theorem firstSuffix_written (suf : Str) (hse : SufOK '=' suf) (c : Correction) (
       rcases hl with hl | hl
       · simp only [hdrL, List.mem_cons, List.not_mem_nil, or_false] at hl
         rcases hl with hl | hl | hl
-        · subst hl; rw [parseDelimLine_rep '=' c.hlen [] hc.hlen (by decide) hse'] at hp; simp at hp; exact hp.2.symm
+        · subst hl; rw [parseDelimLine_rep '=' c.hlen [] hc.hlen (by decide) hse'] at hp; simp at hp; exact hp.2
         · subst hl; rw [parseDelimLine_noDelim hc.name.noDelim] at hp; simp at hp
-        · subst hl; rw [parseDelimLine_rep '=' c.hlen [] hc.hlen (by decide) hse'] at hp; simp at hp; exact hp.2.symm
+        · subst hl; rw [parseDelimLine_rep '=' c.hlen [] hc.hlen (by decide) hse'] at hp; simp at hp; exact hp.2
       · rw [parseDelimLine_noDelim (bodyL_noHeader [] c hc l hl)] at hp; simp at hp
     intro l hl n s hp
-    simp only [← List.append_assoc, List.mem_append (bs := tailLines [] cs)] at hl
-    rcases hl with hl | hl
+    rw [← List.append_assoc] at hl
+    rcases List.mem_append.mp hl with hl | hl
     · exact key c (h c (by simp)) l hl n s hp
     · simp only [tailLines, List.mem_flatten, List.mem_map] at hl
       obtain ⟨grp, ⟨c', hc', rfl⟩, hl⟩ := hl
